@@ -357,7 +357,10 @@ def l8(run: Run, cy: CyProgram):
     the embedding are indexed by samples, so every subscript of them must be I or
     the inner loop variable - never the line number itself."""
     f = cy.modules[TS].funcs["_line_dist"]
-    outer = [s for s in f.body if s.k == "for" and s.a[0].k == "name"]
+    # a scan factored into a cdef helper is analysed in place
+    from .loopir import inline_value_helpers
+    fbody = inline_value_helpers(f)
+    outer = [s for s in fbody if s.k == "for" and s.a[0].k == "name"]
     if len(outer) != 1:
         raise AnalysisError(f"{f.where}: outer scan loop of _line_dist not found")
     line_var = outer[0].a[0].a[0]
@@ -385,7 +388,7 @@ def l8(run: Run, cy: CyProgram):
               and t.name in ("MASK_t", "LAG_t", "DFIELD_t")}
     metric = {n for n, t in f.args if t.kind == "simple" and t.name == "metric_type"}
     n = 0
-    for s in walk(f.body):
+    for s in walk(fbody):
         idx = None
         if isinstance(s, X) and s.k == "index" and s.a[0].k == "name" and \
                 s.a[0].a[0] in arrays:
@@ -457,6 +460,12 @@ def l4(run: Run, cy: CyProgram):
     body = outer[0].a[2]
     flags = [n for n, (t, init, _) in f.locals.items()
              if t.kind == "simple" and t.name == "bint" and n != "line"]
+    if not flags:
+        # the scan state lives elsewhere (e.g. in a per-subspace helper, where
+        # it is a fresh local of every call): nothing carried across iterations
+        run.unknowns.append("L4: _line_dist holds no scan flag of its own; carried "
+                            "state not decided")
+        return
     set_true = set()
     for s in walk(body):
         if isinstance(s, X) and s.k == "assign" and s.a[1].k == "bool" and s.a[1].a[0]:
